@@ -14,9 +14,10 @@ A second, cheap space decides the ``EllipseGeometry.to_polar`` twin
 
 Sizes / measured cost (user+sys): quick 316 lattice points (220 + 64 'start' / 'growth-via-geometry'
 on the 81x101 frame, 7 of them not run: inadmissible start; + 32 of the block 'area' on the 131x151
-frame, 2.4 CPU-s each) + 7 776 to_polar calls, ~6.5 CPU-min (the 57 new fits: 56 CPU-s in-process);
+frame, 2.4 CPU-s each) + 7 776 to_polar calls, ~6.1 CPU-min (measured 5m58 ... 6m14 user+sys at --nproc 4 on a loaded
+machine; the 57 new fits: 56 CPU-s in-process);
 thorough 3 392 lattice points (2 416 + 384 'start' + 256 'growth-via-geometry' + 336 'area') + the
-same to_polar space, ~85 CPU-min (1.35 CPU-s per small-frame fit, extrapolated from a 41-unit spread
+same to_polar space, ~84 CPU-min (the 588 fits of the two new blocks measured: 13.8 CPU-min; 1.35 CPU-s per small-frame fit, extrapolated from a 41-unit spread
 and the 1 764-fit calibration run = 2 494 CPU-s; the 336 'area' fits measured: 13 CPU-min).
 
 The blocks 'start' and 'growth-via-geometry' enumerate WHERE the sma sequence starts and HOW its growth
